@@ -353,3 +353,57 @@ class ClauseTheory(CompilerTheory):
             return SV(sort, e)
         return CompilerTheory.mk_ret(self, ex, sort, e, st)
 
+
+
+class AstVarsTheory(ClauseTheory):
+    """the `variables` properties of the AST classes: `self` is a Body / TA value of the class's constructor; a `.variables`
+    read on a sub-object is that object's property, i.e. (modularly) the spec function of spec/astvars.smt2"""
+
+    def mk_param(self, ex, st, n, sort, sub):
+        if sort == 'Body':
+            e = ex.fresh('Body', n)
+            if sub:
+                st.assume('((_ is %s) %s)' % (sub, e))
+            return SV('Body', e)
+        return ClauseTheory.mk_param(self, ex, st, n, sort, sub)
+
+    def attr_read(self, ex, base, attr, st, node):
+        b = base.e
+        if base.sort == 'TA' and attr == 'variables':
+            return [(st, SV('SS', '(tavars %s)' % b))]
+        if base.sort == 'Body' and attr == 'functor':
+            ex.oblige(st, 'safety.attr.functor', OR('((_ is BPred) %s)' % b, '((_ is BCutIf) %s)' % b), 'safety')
+            return [(st, SV('TA', '(functorobj %s)' % b))]
+        if base.sort == 'Body' and attr == 'pred':
+            ex.oblige(st, 'safety.attr.pred', '((_ is BNeg) %s)' % b, 'safety')
+            return [(st, SV('Body', '(np %s)' % b))]
+        return ClauseTheory.attr_read(self, ex, base, attr, st, node)
+
+    def coerce(self, ex, a, want, st):
+        if want == 'SS' and a.sort == 'PyList' and all(i.sort == 'Str' for i in a.meta['items']):
+            if not a.meta['items']:
+                return SV('SS', '(as seq.empty SS)')
+            units = ['(seq.unit %s)' % i.e for i in a.meta['items']]
+            return SV('SS', units[0] if len(units) == 1 else '(seq.++ %s)' % ' '.join(units))
+        return ClauseTheory.coerce(self, ex, a, want, st)
+
+    def call_name_ast(self, ex, e, st):
+        # functools.reduce(lambda x, y: x + y, [v.variables for v in L], []): the concatenation, in order, of the elements'
+        # variable lists (A-EXT-REDUCE; + on lists is associative with unit []) - by definition tavarsl(L); the two defining
+        # equations are emitted as an obligation
+        if ast.unparse(e.func) == 'functools.reduce' and len(e.args) == 3 and ast.unparse(e.args[0]) == 'lambda x, y: x + y' \
+                and isinstance(e.args[1], ast.ListComp) and ast.unparse(e.args[2]) == '[]':
+            lc = e.args[1]
+            g = lc.generators[0] if len(lc.generators) == 1 else None
+            if g is not None and not g.ifs and isinstance(g.target, ast.Name) and ast.unparse(lc.elt) == g.target.id + '.variables':
+                outs = []
+                for st2, lst in ex.eval(g.iter, st):
+                    if isinstance(lst, Exc) or lst.sort != 'TAL':
+                        raise OutOfSubset('reduce over %s' % getattr(lst, 'sort', lst), e)
+                    h, t = ex.fresh('TA', 'lift_h'), ex.fresh('TAL', 'lift_t')
+                    ex.oblige(st2.fork().tag('lift'), 'reduce.concat.lift',
+                              AND(EQ('(tavarsl tanil)', '(as seq.empty SS)'),
+                                  EQ('(tavarsl (tacons %s %s))' % (h, t), '(seq.++ (tavars %s) (tavarsl %s))' % (h, t))), 'post')
+                    outs.append((st2, SV('SS', '(tavarsl %s)' % lst.e)))
+                return outs
+        return ClauseTheory.call_name_ast(self, ex, e, st)
